@@ -14,6 +14,7 @@ import (
 	"bytes"
 	"errors"
 	"fmt"
+	"github.com/WICG/webpackage/go/bundle"
 	"hash/fnv"
 	"io"
 	"runtime"
@@ -92,6 +93,8 @@ type Art struct {
 	// Sampled: the output is too large to try every position (cost is quadratic); positions are
 	// the deterministic sample of faultPositions().
 	Sampled bool `json:"sampled,omitempty"`
+	// Appended (bundles): see open
+	Appended bool `json:"appended,omitempty"`
 }
 
 // faultPositions: every k for ordinary artifacts; for Sampled ones the first and last 300
@@ -197,6 +200,20 @@ func open(a *Art) (run runFn, variant string, err error) {
 			return nil, "", errors.New("bundle spec missing")
 		}
 		b := bundlekit.Build(a.Bundle)
+		if a.Appended {
+			// the destination is a bundle.CountingWriter that has already carried other data: the
+			// count WriteTo returns is the number of bytes of THIS bundle that were accepted
+			prefix := gen.Filler(41, 77)
+			return func(w io.Writer) (int64, bool, error) {
+				cw := bundle.NewCountingWriter(w)
+				pn, err := cw.Write(prefix)
+				if err != nil {
+					return int64(pn), true, err
+				}
+				n, err := b.WriteTo(cw)
+				return int64(pn) + n, true, err
+			}, "bundle:" + a.Bundle.Version, nil
+		}
 		return func(w io.Writer) (int64, bool, error) {
 			n, err := b.WriteTo(w)
 			return n, true, err
@@ -907,7 +924,8 @@ func fixedBundles() []Art {
 	}
 	// b2 without a primary URL and without exchanges: the smallest output
 	b2min := &bundlekit.Spec{Version: "b2"}
-	return []Art{{Serializer: "bundle", Bundle: b1}, {Serializer: "bundle", Bundle: b2}, {Serializer: "bundle", Bundle: b2min}}
+	return []Art{{Serializer: "bundle", Bundle: b1}, {Serializer: "bundle", Bundle: b2}, {Serializer: "bundle", Bundle: b2min},
+		{Serializer: "bundle", Bundle: b1, Appended: true}, {Serializer: "bundle", Bundle: b2, Appended: true}}
 }
 
 func bigBundle(ver string, body int) Art {
@@ -941,6 +959,12 @@ func fixedSxg(serializer string) []Art {
 		if serializer != "sxg-signedmsg" {
 			// raw (unsigned, not MI-encoded) exchange with an empty payload, also for 1b1
 			out = append(out, Art{Serializer: serializer, Sxg: &SxgSpec{Spec: sxgSpec(ver, 0, 4096), Raw: true, RawSig: "label;sig=*AAAA*"}})
+			// every combination of the optional parts being ABSENT: no Signature header value at all
+			// (an exchange written before it is signed; sigLength 0 reads back fine), with and
+			// without payload octets
+			out = append(out, Art{Serializer: serializer, Sxg: &SxgSpec{Spec: sxgSpec(ver, 0, 4096), Raw: true, RawSig: ""}},
+				Art{Serializer: serializer, Sxg: &SxgSpec{Spec: sxgSpec(ver, 7, 4096), Raw: true, RawSig: ""}},
+				Art{Serializer: serializer, Sxg: &SxgSpec{Spec: sxgSpec(ver, 7, 4096), Raw: true, RawSig: "label;sig=*AAAA*"}})
 		}
 	}
 	return out
